@@ -61,21 +61,24 @@ def BState.removeDatum (s : BState) (id : Nat) : BState × Except ErrKind Unit :
 def BState.hasPendingChanges (s : BState) : Bool :=
   s.variants.isEmpty || !s.toRemove.isEmpty || !s.toAdd.isEmpty
 
+def Strategy.isNative : Strategy → Bool
+  | .gAppend | .gAppendRev => false
+  | _ => true
+
+def runStrategy' (st : Strategy) (defs : Defs) (data add rm : List Nat) : Option (Defs × List Nat) :=
+  match st with
+  | .simple => simple defs data add rm
+  | .basic => basic defs data add rm
+  | .append => some (appendData defs data add rm)
+  | .appendRev => some (appendDataReverse defs data add rm)
+  | .gAppend => some (defs, removeData data rm ++ add)
+  | .gAppendRev => some (defs, removeData data rm ++ add.reverse)
+
 /-- the strategy call; `none` = panic. A datum of alignment 0 makes every native strategy divide by
     zero in `align_bytes` (each of them aligns every added datum at least once). -/
 def runStrategy (st : Strategy) (defs : Defs) (data add rm : List Nat) : Option (Defs × List Nat) :=
-  match st with
-  | .gAppend => some (defs, removeData data rm ++ add)
-  | .gAppendRev => some (defs, removeData data rm ++ add.reverse)
-  | _ =>
-    if add.any (fun d => al defs d = 0) then none
-    else match st with
-      | .simple => simple defs data add rm
-      | .basic => basic defs data add rm
-      | .append => some (appendData defs data add rm)
-      | .appendRev => some (appendDataReverse defs data add rm)
-      | .gAppend => none
-      | .gAppendRev => none
+  if st.isNative && add.any (fun d => al defs d = 0) then none
+  else runStrategy' st defs data add rm
 
 /-- `close_record_variant_with`; returns the variant id, `none` = the strategy panicked. -/
 def BState.close (s : BState) (st : Strategy) : Option (BState × Nat) :=
